@@ -77,7 +77,13 @@ def _enc_module(name, doc, shapes_list, prop, **kw):
     m = G.Module(name, doc)
     seen_types = set()
     for sh in encodable(shapes_list):
-        fn, code, w, unwind, meta = G.emit_enc(sh, prop=prop, level="body", **kw)
+        kw2 = dict(kw)
+        if sh.b.order_free:
+            # MQTT does not prescribe the order of different properties: compare lengths only
+            if not kw2.get("want_len", True):
+                continue
+            kw2["want_bytes"] = False
+        fn, code, w, unwind, meta = G.emit_enc(sh, prop=prop, level="body", **kw2)
         m.add(fn, code, w, unwind, stubs=G.STUBS_ENCODE, meta=meta)
         # packet level (fixed header + glue): the first (smallest) shape of each packet type
         if G.body_ctor(sh) is not None and (sh.fam, sh.typ) not in seen_types and sh.total_len <= 24 and (sh.fam, sh.typ) not in (("v5", "Connect"), ("v3", "Connect"), ("v5", "Publish"), ("v5", "Connack")):
@@ -252,7 +258,7 @@ def gen_c01(tier):
             if (sh.fam, sh.name) in seen:
                 continue
             seen.add((sh.fam, sh.name))
-            fn, code, w, unwind, meta = G.emit_enc(sh, prop="C01", level="body")
+            fn, code, w, unwind, meta = G.emit_enc(sh, prop="C01", level="body", want_bytes=not sh.b.order_free)
             m.add(fn, code, w, unwind, stubs=G.STUBS_ENCODE, meta=meta)
             fn, code, w, unwind, meta = G.emit_dec(sh, prop="C01")
             m.add(fn, code, w, unwind, meta=meta)
@@ -274,11 +280,18 @@ def agree_shapes(tier):
     names = ["connect_v311_fc6_c1_w1_1_u1_p1", "connect_v311_f01_c1", "publish_q1_t1_p1", "publish_q2_t2_p2", "subscribe_2_1", "subscribe_none", "suback_2",
              "pingreq_extra2", "connack_x21", "connack_x23", "connack_xraw00", "connack_x13_pdm1", "publish_q1_t2_p2", "publish_q0_t1_p1_x03l1", "puback_long_x1fl1",
              "puback_medium", "pubrel_long", "disconnect_code", "disconnect_long_x11", "auth_long_x15l1", "subscribe_1_x0bv128", "suback_2", "unsuback_1",
-             "connect_fc6_c1_x11_15l1_w1_1_x18_08l1_u1_p1", "connect_f01_c1", "pingreq_extra1", "auth_long", "auth_code", "publish_q0_t1_p1_x08l1",
+             "connect_fc6_c1_x11_15l1_w1_1_x18_08l1_u1_p1", "connect_f01_c1", "pingreq_extra1", "auth_long", "publish_q0_t1_p1_x08l1",
              "connect_f06_c1_w1_1_x08l1"]
     pick += [sh for sh in v3 + v5 if sh.name in names]
+    # empty topic filters (C16: same decision through the packets) and a non-minimal property length in
+    # UNSUBSCRIBE (the only decoder that does its own length bookkeeping from the bytes consumed)
+    pick += [sh for sh in v3 + v5 if sh.b.empty_filter]
+    pick += [G.v5_unsubscribe((1,), (), nonmin=True), G.v5_unsubscribe((2,), [(0x26, (1, 1))], nonmin=True)]
     if tier == "thorough":
         pick = v3 + [sh for sh in v5 if sh.total_len <= 16]
+    # AUTH with a reason code but no property length: the lenient front-ends read the property length from
+    # the (symbolic) tail, i.e. a symbolic-size property loop -- no verdict (out of memory at 10 GB)
+    pick = [sh for sh in pick if not (sh.fam == "v5" and sh.name == "auth_code")]
     seen = set()
     out = []
     for sh in pick:
@@ -323,4 +336,19 @@ def gen_c11(tier):
             fn, code, w, unwind, meta = G.emit_reenc(sh)
             m.add(fn, code, w, unwind, meta=meta)
         m.write(srcdir)
+    return g
+
+
+def gen_c14(tier):
+    def g(srcdir):
+        m = G.Module("g_c14", "C14: read error at every position of a valid encoding -> I/O error of that kind (async decoder)")
+        cand = [G.v3_publish(1, 1, 1), G.v3_connect("V311", 0x02), G.v3_subscribe((1,)), G.v3_pidonly("Puback"), G.v3_suback(1),
+                G.v5_publish(0, 1, 0, [(0x08, 1)]), G.v5_ack("Puback", "long", [(0x1F, 1)], False), G.v5_subscribe((1,)),
+                G.v5_disconnect("long", [(0x11, None)]), G.v5_connect(0x02)]
+        if tier == "thorough":
+            cand += [G.v5_connect(0x06, 1, (), 1, 1, [(0x08, 1)]), G.v3_connect("V311", 0xC6), G.v5_auth("long", [(0x15, 1)]), G.v5_codes("Suback", 1, [(0x1F, 1)])]
+        for sh in cand:
+            fn, code, w, unwind, meta = G.emit_fault(sh)
+            m.add(fn, code, w, unwind, stubs=G.STUBS_FAULT, meta=meta)
+        m.write(srcdir, chunk=4)
     return g
